@@ -498,6 +498,50 @@ class SocketAdapterEofFails(SocketAdapter):
         harness.asyncio_transport_of(self.adapter).write_eof = write_eof  # type: ignore[method-assign]
 
 
+class TLSListenerWrapFails(Path):
+    """Not an aclose() call: a TLS listener whose wrap of an accepted connection fails before any handshake byte is exchanged (a context
+    made for the client side refuses to wrap a server-side connection): the accepted connection is closed, the listener goes on."""
+
+    name = "AsyncTLSListener: wrap of an accepted connection fails before the handshake"
+
+    async def setup(self) -> None:
+        import ssl
+
+        from easynetwork.lowlevel.api_async.transports.tls import AsyncTLSListener
+
+        self.backend = _backend()
+        self.mem = memtransport.MemListener(self.backend)
+        self.errors: list[BaseException] = []
+        self.tls_listener = AsyncTLSListener(self.mem, ssl.create_default_context(), handshake_timeout=5, shutdown_timeout=1, handshake_error_handler=self.errors.append)
+
+        async def handler(stream: Any) -> None:
+            await asyncio.sleep(3600)
+
+        self.serve_task = asyncio.ensure_future(self.tls_listener.serve(handler))
+        await harness.settle()
+        self.t = self.inner(1, memtransport.MemPipe(), memtransport.MemPipe())
+
+        async def stop() -> None:
+            self.serve_task.cancel()
+            await asyncio.gather(self.serve_task, return_exceptions=True)
+            await self.mem.aclose()
+
+        self.cleanup.append(stop)
+
+    def close(self) -> Awaitable[None]:
+        async def accept_and_wait() -> None:
+            self.mem.push(self.t)
+            for _ in range(60):
+                await asyncio.sleep(0)
+            if self.serve_task.done():
+                raise RuntimeError("serve() ended")
+
+        return accept_and_wait()
+
+    def second(self) -> Awaitable[None]:
+        return self.t.aclose()
+
+
 class DatagramSocketAdapter(Path):
     name = "AsyncioTransportDatagramSocketAdapter.aclose"
 
@@ -794,6 +838,7 @@ PATHS: list[type[Path]] = [
     UDPServerTwoListeners,
     DatagramListenerAdapter,
     SocketAdapterEofFails,
+    TLSListenerWrapFails,
 ]
 
 
